@@ -111,6 +111,7 @@ type tctx struct {
 	ret   func(string) string
 	panic string
 	cont  string // "" = not inside a loop body
+	brk   string // "" = break is not available
 	rty   string // Lean type of the term being built (for annotations)
 }
 
@@ -119,6 +120,8 @@ type translator struct {
 	tab    *transTables
 	env    map[string]ty
 	recv   string
+	res    ty   // result type of the function
+	optRes bool // the Go function returns (T, error): the Lean result is Option T
 	probs  []string
 	njp    int
 	hasPan bool
@@ -292,9 +295,37 @@ func numTy(a, b ty) ty {
 
 func (t *translator) call(x *ast.CallExpr) (string, ty) {
 	name := t.calleeName(x.Fun)
+	if c, ok := t.tab.consts[t.f.src(x)]; ok { // e.g. string(filepath.Separator)
+		return c.lean, c.t
+	}
 	if name == "len" && len(x.Args) == 1 {
 		a, _ := t.expr(x.Args[0])
 		return paren(a) + ".length", tNat
+	}
+	if name == "append" && len(x.Args) == 2 && !x.Ellipsis.IsValid() {
+		a, at := t.expr(x.Args[0])
+		b, _ := t.expr(x.Args[1])
+		return "(" + a + " ++ [" + b + "])", at
+	}
+	if se, ok := x.Fun.(*ast.SelectorExpr); ok && !strings.HasPrefix(name, "recv.") {
+		// method of a value whose Lean type is known, e.g. o.compare.satisfies(a, r) with o.compare : Dep
+		if id, isId := se.X.(*ast.Ident); !isId || t.isLocal(id.Name) {
+			saved := len(t.probs)
+			a, at := t.expr(se.X)
+			if cv, ok := t.tab.calls["("+at.lean+")."+se.Sel.Name]; ok && !cv.optErr {
+				return "(" + cv.lean + " " + paren(a) + strings.TrimSuffix(strings.TrimPrefix(t.apply("", x.Args), "("), ")") + ")", cv.t
+			}
+			t.probs = t.probs[:saved]
+		}
+	}
+	if len(x.Args) > 0 {
+		// overload chosen by the Lean type of the first argument, e.g. cmp.Compare on strings / naturals
+		saved := len(t.probs)
+		_, at := t.expr(x.Args[0])
+		t.probs = t.probs[:saved]
+		if cv, ok := t.tab.calls[name+"/"+at.lean]; ok && !cv.optErr {
+			return t.apply(cv.lean, x.Args), cv.t
+		}
 	}
 	if se, ok := x.Fun.(*ast.SelectorExpr); ok && len(x.Args) == 0 {
 		// accessor method that the field table maps like a field, e.g. p.Repository()
@@ -306,6 +337,9 @@ func (t *translator) call(x *ast.CallExpr) (string, ty) {
 			if fv, ok := t.tab.fields[fieldKey{at.lean, se.Sel.Name + "()"}]; ok {
 				if fv.lean == "" {
 					return a, fv.t
+				}
+				if strings.HasPrefix(fv.lean, "@") {
+					return "(" + fv.lean[1:] + " " + paren(a) + ")", fv.t
 				}
 				return paren(a) + fv.lean, fv.t
 			}
@@ -354,7 +388,7 @@ func terminates(l []ast.Stmt) bool {
 	case *ast.ReturnStmt:
 		return true
 	case *ast.BranchStmt:
-		return s.Tok == token.CONTINUE
+		return s.Tok == token.CONTINUE || s.Tok == token.BREAK
 	case *ast.ExprStmt:
 		if c, ok := s.X.(*ast.CallExpr); ok {
 			if id, ok := c.Fun.(*ast.Ident); ok && id.Name == "panic" {
@@ -468,16 +502,73 @@ func (t *translator) block(l []ast.Stmt, c tctx, fall string) string {
 	rest := func() string { return t.block(tail, c, fall) }
 	switch x := s.(type) {
 	case *ast.ReturnStmt:
-		if len(x.Results) != 1 {
+		want := 1
+		if t.optRes {
+			want = 2
+		}
+		if len(x.Results) != want {
 			return t.bad(s, "return with %d results", len(x.Results))
 		}
-		e, _ := t.expr(x.Results[0])
+		e := ""
+		if id, ok := x.Results[0].(*ast.Ident); ok && id.Name == "nil" && t.res.kind == "list" {
+			e = "[]"
+		} else {
+			e, _ = t.expr(x.Results[0])
+		}
+		if t.optRes {
+			// (value, nil) ↦ some value;  (_, <an error that is made here>) ↦ none;  (value, err) ↦ by err
+			switch r := x.Results[1].(type) {
+			case *ast.Ident:
+				if r.Name == "nil" {
+					e = "some " + paren(e)
+				} else if et, ok := t.env[r.Name]; ok && et.kind == "err" {
+					e = "(if " + leanIdent(r.Name) + " then none else some " + paren(e) + ")"
+				} else {
+					return t.bad(s, "second result %s", r.Name)
+				}
+			case *ast.CallExpr:
+				if n := t.f.src(r.Fun); n != "fmt.Errorf" && n != "errors.New" {
+					return t.bad(s, "second result %s is not a fresh error", t.f.src(r))
+				}
+				e = "none"
+			default:
+				return t.bad(s, "second result %s", t.f.src(x.Results[1]))
+			}
+		}
 		return c.ret(e)
 	case *ast.BranchStmt:
 		if x.Tok == token.CONTINUE && x.Label == nil && c.cont != "" {
 			return c.cont
 		}
+		if x.Tok == token.BREAK && x.Label == nil && c.brk != "" {
+			return c.brk
+		}
 		return t.bad(s, "%s is not supported here", x.Tok)
+	case *ast.DeclStmt:
+		gd, ok := x.Decl.(*ast.GenDecl)
+		if !ok || gd.Tok != token.VAR {
+			return t.bad(s, "declaration %s", t.f.src(s))
+		}
+		lets := ""
+		for _, sp := range gd.Specs {
+			vs := sp.(*ast.ValueSpec)
+			if len(vs.Values) != 0 || vs.Type == nil {
+				return t.bad(s, "var with initialiser (use :=)")
+			}
+			vt, ok := t.tab.types[t.f.src(vs.Type)]
+			zero := map[string]string{"Text": "([] : Text)", "Int": "(0 : Int)", "Nat": "(0 : Nat)", "Bool": "false"}[vt.lean]
+			if vt.kind == "list" {
+				zero = "([] : " + vt.lean + ")"
+			}
+			if !ok || zero == "" {
+				return t.bad(s, "var of type %s has no known zero value", t.f.src(vs.Type))
+			}
+			for _, n := range vs.Names {
+				t.env[n.Name] = vt
+				lets += "let " + leanIdent(n.Name) + " := " + zero + "\n"
+			}
+		}
+		return lets + rest()
 	case *ast.ExprStmt:
 		if isPanic(s) {
 			return c.panic
@@ -562,6 +653,11 @@ func (t *translator) assign(x *ast.AssignStmt) string {
 			return join(bind(names[0], call+".getD default", cv.t), bind(names[1], call+".isNone", tErr))
 		case *ast.IndexExpr:
 			m, mt := t.expr(r.X)
+			if mt.kind == "ptrset" && names[0] == "_" {
+				// a map keyed by package pointer, read as the set of the ids of its keys
+				k, _ := t.expr(r.Index)
+				return bind(names[1], "("+paren(m)+".contains "+paren(k)+".id)", tBool)
+			}
 			if mt.kind != "map" {
 				return t.bad(x, "comma-ok index on %s which is not a map", t.f.src(r.X))
 			}
@@ -772,33 +868,79 @@ func (t *translator) switchStmt(x *ast.SwitchStmt, tail []ast.Stmt, c tctx, fall
 	return out + "\n" + ind(d)
 }
 
+// ownBreak: a `break` that belongs to this loop (not to a nested one).
+func ownBreak(l []ast.Stmt) bool {
+	found := false
+	for _, s := range l {
+		ast.Inspect(s, func(n ast.Node) bool {
+			switch y := n.(type) {
+			case *ast.RangeStmt, *ast.ForStmt, *ast.FuncLit:
+				return false
+			case *ast.BranchStmt:
+				if y.Tok == token.BREAK {
+					found = true
+				}
+			}
+			return !found
+		})
+	}
+	return found
+}
+
 func (t *translator) loop(list, v string, vt ty, body []ast.Stmt, tail []ast.Stmt, c tctx, fall string, at ast.Node) string {
 	for _, s := range body {
 		bad := false
 		ast.Inspect(s, func(n ast.Node) bool {
-			if b, ok := n.(*ast.BranchStmt); ok && b.Tok != token.CONTINUE {
+			switch y := n.(type) {
+			case *ast.BranchStmt:
+				if y.Label != nil || (y.Tok != token.CONTINUE && y.Tok != token.BREAK) {
+					bad = true
+				}
+			case *ast.LabeledStmt:
 				bad = true
 			}
 			return true
 		})
 		if bad {
-			return t.bad(at, "break / goto inside a loop")
+			return t.bad(at, "goto / labels inside a loop")
 		}
 	}
-	if a := outerAssigned(body); len(a) > 0 {
-		return t.bad(at, "loop that assigns %v, which is visible afterwards (accumulators are not supported)", a)
+	acc := outerAssigned(body)
+	if len(acc) == 0 && !ownBreak(body) {
+		// early return only: findSome?
+		inner := tctx{
+			ret:   func(e string) string { return "some " + paren(c.ret(e)) },
+			panic: "some " + paren(c.panic),
+			cont:  "none",
+			rty:   "Option " + paren(c.rty),
+		}
+		b := t.scoped(func() string {
+			t.env[v] = vt
+			return t.block(body, inner, "none")
+		})
+		return "(match (" + paren(list) + ".findSome? (fun " + leanIdent(v) + " =>\n" + ind(ind(b)) + ") : " + inner.rty + ") with\n| some r => r\n| none =>\n" + ind(t.block(tail, c, fall)) + ")"
 	}
+	// accumulators and/or break: a fold with early exit over the state `acc`
+	ids := make([]string, len(acc))
+	for i, a := range acc {
+		if _, ok := t.env[a]; !ok {
+			return t.bad(at, "loop assigns %s which is not a local", a)
+		}
+		ids[i] = leanIdent(a)
+	}
+	tuple := "(" + strings.Join(ids, ", ") + ")"
 	inner := tctx{
-		ret:   func(e string) string { return "some " + paren(c.ret(e)) },
-		panic: "some " + paren(c.panic),
-		cont:  "none",
-		rty:   "Option " + paren(c.rty),
+		ret:   func(e string) string { return ".ret " + paren(c.ret(e)) },
+		panic: ".ret " + paren(c.panic),
+		cont:  ".next " + tuple,
+		brk:   ".brk " + tuple,
+		rty:   "Trans.Loop " + paren(c.rty) + " _",
 	}
 	b := t.scoped(func() string {
 		t.env[v] = vt
-		return t.block(body, inner, "none")
+		return t.block(body, inner, ".next "+tuple)
 	})
-	return "(match (" + paren(list) + ".findSome? (fun " + leanIdent(v) + " =>\n" + ind(ind(b)) + ") : " + inner.rty + ") with\n| some r => r\n| none =>\n" + ind(t.block(tail, c, fall)) + ")"
+	return "(match Trans.forRange (ρ := " + c.rty + ") " + paren(list) + " " + tuple + " (fun " + tuple + " " + leanIdent(v) + " =>\n" + ind(ind(b)) + ") with\n| .inl r => r\n| .inr " + tuple + " =>\n" + ind(t.block(tail, c, fall)) + ")"
 }
 
 func (t *translator) rangeStmt(x *ast.RangeStmt, tail []ast.Stmt, c tctx, fall string) string {
@@ -895,6 +1037,10 @@ type transTarget struct {
 	closure bool          // the function returns a func literal: translate that, the outer parameters first
 	lean    string        // name of the generated definition
 	params  map[string]ty // parameter types by name (wins over typeMap)
+	lit     int           // n > 0: translate the n-th func literal inside the function (source order), its parameters only
+	after   string        // translate the body AFTER the first top-level statement whose source starts with this …
+	extra   [][2]string   // … with these additional parameters (name, printed Go type) for the locals it leaves behind
+	skip    []string      // parameters that are dropped (not used by the translated part)
 }
 
 // translateFunc returns the Lean text of one definition (comment with the Go source + def) and the problems.
@@ -927,8 +1073,70 @@ func translateFunc(f *File, fd *ast.FuncDecl, tg transTarget, tab *transTables) 
 			addParams(fd.Recv)
 		}
 	}
-	addParams(fd.Type.Params)
+	skipped := map[string]bool{}
+	for _, n := range tg.skip {
+		skipped[n] = true
+	}
+	if tg.lit == 0 {
+		pl := &ast.FieldList{}
+		for _, p := range fd.Type.Params.List {
+			q := *p
+			q.Names = nil
+			for _, n := range p.Names {
+				if !skipped[n.Name] {
+					q.Names = append(q.Names, n)
+				}
+			}
+			if len(q.Names) > 0 {
+				pl.List = append(pl.List, &q)
+			}
+		}
+		addParams(pl)
+	}
+	for _, e := range tg.extra {
+		pt, ok := tab.types[e[1]]
+		if !ok {
+			t.bad(fd, "extra parameter %s has type %s which is not in the type table", e[0], e[1])
+			continue
+		}
+		t.env[e[0]] = pt
+		binders = append(binders, "("+leanIdent(e[0])+" : "+pt.lean+")")
+	}
 	body, results := fd.Body, fd.Type.Results
+	if tg.after != "" {
+		k := -1
+		for i, st := range fd.Body.List {
+			if strings.HasPrefix(f.src(st), tg.after) {
+				k = i
+				break
+			}
+		}
+		if k < 0 {
+			t.bad(fd, "no top-level statement starts with %q", tg.after)
+		} else {
+			body = &ast.BlockStmt{List: fd.Body.List[k+1:]}
+		}
+	}
+	if tg.lit > 0 {
+		var lit *ast.FuncLit
+		n := 0
+		ast.Inspect(fd.Body, func(x ast.Node) bool {
+			if l, ok := x.(*ast.FuncLit); ok {
+				n++
+				if n == tg.lit {
+					lit = l
+				}
+			}
+			return lit == nil
+		})
+		if lit == nil {
+			t.bad(fd, "function literal %d not found", tg.lit)
+			body = &ast.BlockStmt{}
+		} else {
+			addParams(lit.Type.Params)
+			body, results = lit.Body, lit.Type.Results
+		}
+	}
 	if tg.closure {
 		var lit *ast.FuncLit
 		if len(fd.Body.List) == 1 {
@@ -945,12 +1153,35 @@ func translateFunc(f *File, fd *ast.FuncDecl, tg transTarget, tab *transTables) 
 		}
 	}
 	rty := ""
-	if results == nil || len(results.List) != 1 || len(results.List[0].Names) > 1 {
-		t.bad(fd, "function must have exactly one result")
-	} else if rt, ok := tab.types[f.src(results.List[0].Type)]; ok {
-		rty = rt.lean
-	} else {
-		t.bad(fd, "result type %s is not in the type table", f.src(results.List[0].Type))
+	nres := 0
+	if results != nil {
+		for _, r := range results.List {
+			nres += max(1, len(r.Names))
+		}
+	}
+	if nres == 2 && f.src(results.List[len(results.List)-1].Type) == "error" {
+		t.optRes = true // (T, error) ↦ Option T
+	} else if nres != 1 {
+		t.bad(fd, "function must have one result, or a result and an error")
+	}
+	if nres >= 1 {
+		if rt, ok := tab.types[f.src(results.List[0].Type)]; ok {
+			rty, t.res = rt.lean, rt
+			for _, r := range results.List { // named results are locals (used before assigned = unbound in Lean)
+				for _, n := range r.Names {
+					if f.src(r.Type) == "error" {
+						t.env[n.Name] = tErr
+					} else if nt, ok := tab.types[f.src(r.Type)]; ok {
+						t.env[n.Name] = nt
+					}
+				}
+			}
+		} else {
+			t.bad(fd, "result type %s is not in the type table", f.src(results.List[0].Type))
+		}
+	}
+	if t.optRes {
+		rty = "Option " + paren(rty)
 	}
 	for _, s := range body.List {
 		ast.Inspect(s, func(n ast.Node) bool {
